@@ -23,7 +23,7 @@ def universe(tier, seed):
     nxt = S.enumerate_methods(4 if tier == "quick" else 5, 3, KINDS)
     nxt = [b for b in nxt if S.size_of_body(b) == (4 if tier == "quick" else 5)]
     # constructs whose smallest instances are larger than the exhaustive bound get their own exhaustive families
-    feature = [b for b in S.enumerate_methods(6, 2, {"s", "switch", "break", "return"}) if "switch" in S.features(b)]
+    feature = [b for b in S.enumerate_methods(6, 2, {"s", "switch", "switch_default_first", "break", "return"}) if "switch" in S.features(b)]
     feature += [b for b in S.enumerate_methods(7, 3, {"s", "switch", "break", "continue", "while"})
                 if "switch" in S.features(b) and "while" in S.features(b) and S.size_of_body(b) <= (7 if tier == "thorough" else 6)]
     feature += [b for b in S.enumerate_methods(5, 2, {"s", "try", "return", "if"}) if "try" in S.features(b) and S.size_of_body(b) >= 4]
